@@ -86,6 +86,16 @@ def run(prop: str, tier: str, seed: int, replay: str | None, scratch: str) -> in
     except Exception as e:  # a translator crash is 'kernel unavailable', not a verdict
         ctx.gen_status["_error"] = f"{type(e).__name__}: {e}"
 
+    # 1b. has the code the hand-written parts of the model were validated against changed?  Not a verdict —
+    #     it only moves this run to the thorough case counts (see harness/fingerprint.py)
+    try:
+        import fingerprint
+        ctx.source_drift = fingerprint.drift(prop)
+    except Exception as e:  # noqa: BLE001
+        ctx.source_drift = [f"<fingerprint error: {type(e).__name__}: {e}>"]
+    if ctx.source_drift and tier == "quick" and os.environ.get("VERIF_NO_ESCALATE") != "1":
+        ctx.escalated = True
+
     # 2. prove: build the property module, audit its theorems ---------------------------
     required = list(mod.REQUIRED)
     ctx.obligations = required
@@ -217,6 +227,8 @@ def run(prop: str, tier: str, seed: int, replay: str | None, scratch: str) -> in
         "branch_histogram": st.branches,
         "near_ties_skipped": st.near_ties,
         "generated_kernels": ctx.gen_status,
+        "source_drift_vs_fingerprinted_baseline": ctx.source_drift,
+        "escalated_to_thorough_counts": ctx.escalated,
         "oracle_contracts": ctx.contracts,
         "notes": st.notes,
         "model_impl_divergences": len(ctx.divergences),
@@ -231,6 +243,9 @@ def run(prop: str, tier: str, seed: int, replay: str | None, scratch: str) -> in
     (EVIDENCE / f"{prop}.json").write_text(json.dumps(ev, indent=1, default=str))
     for ln in lines:
         print(ln)
+    if ctx.source_drift:
+        print(f"  (source drift, not a verdict: {len(ctx.source_drift)} anchored function(s) differ from the fingerprinted "
+              f"baseline, e.g. {ctx.source_drift[0]}" + ("; run with the thorough case counts)" if ctx.escalated else ")"))
     print(f"{prop} tier={tier} seed={seed}: obligations {len(ctx.discharged)}/{len(ctx.obligations)}, "
           f"correspondence cases {st.evaluations} ({len(st.nontrivial)} distinct non-trivial), "
           f"divergences {len(ctx.divergences)}, violations {nviol}, {ev['wall_s']} s")
